@@ -101,24 +101,31 @@ PLAN = {
              "temporaries hide the provider state from a Verus postcondition; DeviceEeprom::write_word's retry bound (<= 21 attempts) not yet under contract",
     ),
     "C15": dict(
-        verus=["sdo"], kani=[], level="proof",
-        claim="Coe::sdo_write, sdo_read, sdo_read_expedited and the request constructors, verbatim (Verus, unbounded, device = arbitrary reply): "
+        verus=["sdo", "mailbox"], kani=["mbx"], level="proof",
+        claim="Coe::mailbox_write_read extracted WHOLE (Verus, device = arbitrary reply bytes of any length): the request bytes written to the write mailbox are exactly "
+              "request.pack() with the mailbox's address and length, and the outcome is exactly triage(request, reply): emergency -> Emergency error with the code/register "
+              "decoded right after the 8 header bytes, abort -> Aborted with the device's abort code and the reply's index/sub-index, foreign mailbox type or an index/sub-index "
+              "other than the requested one (validate_response impls, extracted) -> SdoResponseInvalid, else the decoded headers and the bytes after the 12 header bytes; "
+              "SubDevice::mailbox_counter cycles 1..7, never 0 (Kani, every stored value, complete). "
+              "Coe::sdo_write, sdo_read, sdo_read_expedited and the request constructors, verbatim (Verus, unbounded, device = arbitrary reply): "
               "sdo_write exchanges an expedited download carrying exactly the value's bytes zero padded to 4, size = 4-len, the right index / sub-index / "
               "complete-access flag and a counter in 1..=7 (values > 4 bytes are refused); sdo_read sends an upload for exactly (index, sub-index) and "
               "returns the decoding of the first 4-size bytes (expedited) resp. of the length-10 bytes after the 4-byte size field (normal), "
               "refusing objects larger than the destination with TooLong; SdoNormal::upload / SdoSegmented::upload / SdoExpedited::download field values",
         note="relative to the spec encodings (the device is not modelled); segmented uploads are covered by the safety obligations (C16) but their "
-             "concatenation/toggle clause is not stated; array helpers, abort/emergency triage in mailbox_write_read and the 1..7 counter cycle "
-             "(SubDevice::mailbox_counter) are not under contract; header wire layouts are the C19 harnesses",
+             "concatenation/toggle clause is not stated; array helpers are not under contract; the field decoders of the two reply shapes declared inside "
+             "mailbox_write_read (HeadersRaw, EmergencyData) are assumed to decode what their #[wire] attributes say (a harness cannot name a fn-local type); "
+             "wait_for_mailboxes / wait_for_mailbox_response (status polling under `async{}.timeout()`) are assumed to return the configured mailboxes / any bytes; "
+             "other header wire layouts are the C19 harnesses",
     ),
     "C16": dict(
-        verus=["sdo"], kani=["wkc"], level="proof",
-        claim="for an ARBITRARY reply of arbitrary length (mailbox_write_read / wait_for_mailbox_response return any headers and bytes): sdo_read (all three "
+        verus=["sdo", "mailbox"], kani=["wkc", "mbx"], level="proof",
+        claim="for an ARBITRARY reply of arbitrary length (wait_for_mailbox_response returns any bytes): mailbox_write_read's header triage (HeadersRaw / emergency / abort "
+              "decode, trims) extracted whole, and - against any headers and bytes coming out of it - sdo_read (all three "
               "modes incl. the segmented loop), sdo_read_expedited, sdo_write and the SDO-info fragment loop of send_sdo_info_service never underflow/overflow, "
               "never slice or copy out of bounds, unwrap only Some/Ok, accumulate at most the fixed buffer and TERMINATE (decreases: bytes left resp. "
               "responses left) - Verus automatic obligations on the verbatim code; ReceivedPdu::trim_front keeps the view inside the datagram (Kani)",
-        note="mailbox_write_read's own triage (HeadersRaw decode, emergency/abort branches) is not extracted (local struct with derive inside the fn body); "
-             "sdo_info_object_description_list / quantities decode the accumulated buffer through derive output (C19)",
+        note="sdo_info_object_description_list / quantities decode the accumulated buffer through derive output (C19)",
     ),
     "C17": dict(
         verus=[], kani=["ports", "dc"], level="proof",
